@@ -89,14 +89,20 @@ mutual
         | .none => (st, .err .valueError)
         | .one _ _ => match st.bind k v with
           | .ok st' => (st', .ok) | .error e => (st, .err e)
-    | .bindAt k v loc => match st.bind k v (some loc) with
-        | .ok st' => (st', .ok) | .error e => (st, .err e)
-    | .bindBlockAt k v loc =>
-        match st.registry.getMatch k.sel with
-        | .ambiguous _ => (st, .err .keyError)
-        | .none => (st, .err .valueError)
-        | .one _ _ => match st.bind k v (some loc) with
+    -- a binding written in config text: the value is parsed first (`%name` abbreviations of
+    -- constants are resolved), then the statement is applied
+    | .bindAt k v loc => match st.resolveAbbrev v with
+        | .error e => (st, .err e)
+        | .ok v' => match st.bind k v' (some loc) with
           | .ok st' => (st', .ok) | .error e => (st, .err e)
+    | .bindBlockAt k v loc => match st.resolveAbbrev v with
+        | .error e => (st, .err e)
+        | .ok v' =>
+          match st.registry.getMatch k.sel with
+          | .ambiguous _ => (st, .err .keyError)
+          | .none => (st, .err .valueError)
+          | .one _ _ => match st.bind k v' (some loc) with
+            | .ok st' => (st', .ok) | .error e => (st, .err e)
     | .query k => match st.query k with
         | .ok v => (st, .value v) | .error e => (st, .err e)
     | .call sel enter args kwargs =>
